@@ -444,6 +444,10 @@ class XsdGen:
         other = None
         if rng.random() < (0.45 if self.hostile else 0.4) and tns and not self.simple:
             other = Schema(f"urn:xsdgen:{salt}:other", efd=rng.random() < 0.7, afd=False, file=rng.choice(["other.xsd", "other.xsd", "other_base_types.xsd", "common_types_v2.xsd"]))  # (module names of several words: import aliases are built from the words two module paths differ in)
+            if rng.random() < 0.3:
+                # mirrored namespace names: the package paths hold the same words in another order
+                main.tns, other.tns = f"http://{salt}.mirror/", f"http://mirror.{salt}/"
+                self.feat.add("mirrored-namespace-names")
             oct = self.complex_type(ss, other, self.gname("OtherType"), self.depth, [])
             other.ctypes.append(oct)
             ge = ElemDecl(self.gname("otherEl"), SimpleT(None, rng.choice(["string", "int", "date"])), is_global=True, ns=other.tns)
@@ -519,7 +523,7 @@ class XsdGen:
                     self.feat.add("substitution-group")
         # the same local type name in both namespaces (legal: the names are qualified): the generator has to keep
         # the two classes apart (import aliases, numeric suffixes where one module/package holds both)
-        if other is not None and rng.random() < 0.6:
+        if other is not None and (rng.random() < 0.6 or "mirrored-namespace-names" in self.feat):
             twin = rng.choice([c for c in main.ctypes if c.name])
             variants = [twin.name]
             if self.hostile:
